@@ -185,19 +185,41 @@ func checkReseed(w *World, r *Report, d *detInfo, k *kernels, curFFCField int, r
 	}
 }
 
-// checkResetChain: F5
-func checkResetChain(w *World, r *Report, d *detInfo, k *kernels) {
-	// detector.Reset: both rings reset, background frame count zeroed
+// checkDetectorResetRings: the detector's Reset resets the comparison ring and the diff ring THEMSELVES (the receiver's
+// fields, not copies); returns the set of receiver fields Reset stores the constant 0 into.
+func checkDetectorResetRings(w *World, r *Report, d *detInfo, k *kernels, rule string) map[int]bool {
 	cmp, dif := d.Role["compareRing"], d.Role["diffRing"]
 	resetRings := map[int]bool{}
 	zeroed := map[int]bool{}
+	e := newTermEnv(w)
+	ringAddr := map[string]int{}
+	for _, fi := range []int{cmp, dif} {
+		ringAddr["addr(motion.motionDetector."+d.St.Field(fi).Name()+"@recv:motion.motionDetector)"] = fi
+	}
 	for _, b := range k.reset.Blocks {
 		for _, in := range b.Instrs {
 			switch x := in.(type) {
 			case *ssa.Call:
-				if callee := x.Call.StaticCallee(); callee != nil && callee.Name() == "Reset" && len(x.Call.Args) > 0 {
-					if fa, ok := x.Call.Args[0].(*ssa.FieldAddr); ok && isPtrTo(fa.X.Type(), d.T) {
-						resetRings[fa.Field] = true
+				callee := x.Call.StaticCallee()
+				if callee == nil || callee.Name() != "Reset" || len(x.Call.Args) == 0 {
+					continue
+				}
+				t := e.termOf(x.Call.Args[0])
+				gs := guardStrings(e.guardsOf(b))
+				// the ring itself, unconditionally
+				if fi, ok := ringAddr[t.String()]; ok && len(gs) == 0 {
+					resetRings[fi] = true
+					continue
+				}
+				// every element of a literal list of ring addresses, in a full range loop over that list
+				if t.Op == "index" && len(t.Args) == 2 && t.Args[0].Op == "list" && t.Args[1].Op == "rangeidx" && t.Args[1].Args[0].String() == t.Args[0].String() {
+					loopGuard := "lt(" + t.Args[1].String() + ", len(" + t.Args[0].String() + "))"
+					if len(gs) == 1 && gs[0] == loopGuard {
+						for _, el := range t.Args[0].Args {
+							if fi, ok := ringAddr[el.String()]; ok {
+								resetRings[fi] = true
+							}
+						}
 					}
 				}
 			case *ssa.Store:
@@ -209,7 +231,13 @@ func checkResetChain(w *World, r *Report, d *detInfo, k *kernels) {
 			}
 		}
 	}
-	r.Check(resetRings[cmp] && resetRings[dif], "F5", "detector Reset resets the comparison ring and the diff ring", w.Pos(k.reset.Pos()), fmt.Sprint(resetRings))
+	r.Check(resetRings[cmp] && resetRings[dif], rule, "detector Reset resets the comparison ring and the diff ring", w.Pos(k.reset.Pos()), fmt.Sprint(resetRings))
+	return zeroed
+}
+
+// checkResetChain: F5
+func checkResetChain(w *World, r *Report, d *detInfo, k *kernels) {
+	zeroed := checkDetectorResetRings(w, r, d, k, "F5")
 	checkRingResetAndOldest(w, r, "F5")
 	checkRingMove(w, r, "F3")
 	// background frame counter: the int field incremented in updateBackground
@@ -383,7 +411,7 @@ func propC15(w *World, r *Report) {
 		if !a.IsStore || e.termOf(a.Frame).String() != bg {
 			continue
 		}
-		row, col := d.rangeOf(e, a.Row), d.rangeOf(e, a.Col)
+		row, col := d.rangeOf(e, a.Row), d.colRange(e, a)
 		ld, _ := a.Val.(*ssa.UnOp)
 		var f, rr, cc ssa.Value
 		okA := false
@@ -575,6 +603,7 @@ func propC15(w *World, r *Report) {
 	} else {
 		r.Unknown("A6", "throttle pass-through", "-", err.Error())
 	}
+	checkSettingsImmutable(w, r, "A1", "ThermalMotion", "Config") // dynamic-thresh, temp-thresh limits as configured
 }
 
 func minInt(a, b int) int {
